@@ -4,6 +4,7 @@ CONSTANTS
   Templates <- TplC18all
   Bundles <- TlsBundles
   Ctxs <- Wide
+  Reqs <- FullReq
   Tries <- One
   Hists <- NoHist
   BackoffCfgs <- NoBoCfgs
